@@ -211,12 +211,34 @@ func (e *Exec) runSiteSpecs(s *State, ins ssa.Instruction, specs []*SiteSpec, be
 	e.curSitePos = ins.Pos()
 	defer func() { e.curSitePos = savedPos }()
 	for _, ss := range specs {
+		ss := ss
+		func() {
+			// a site whose clauses cannot be evaluated at this point (a variable it names does not
+			// exist here any more) is reported as undecided; the rest of the function is still verified
+			defer func() {
+				if r := recover(); r != nil {
+					if u, ok := r.(unsupportedErr); ok && strings.HasPrefix(u.msg, "spec:") {
+						if e.quiet == 0 {
+							e.missingAnchors = append(e.missingAnchors, fmt.Sprintf("site %q of %s cannot be evaluated: %s", ss.Label, e.funcKey, u.msg))
+						}
+						return
+					}
+					panic(r)
+				}
+			}()
+			e.runOneSiteSpec(s, ins, ss, before)
+		}()
+	}
+}
+
+func (e *Exec) runOneSiteSpec(s *State, ins ssa.Instruction, ss *SiteSpec, before bool) {
+	{
 		if ss.Step != "" && !before {
 			e.endStep(s, ins, ss)
-			continue
+			return
 		}
 		if ss.Before != before {
-			continue
+			return
 		}
 		if ss.Step != "" {
 			e.beginStep(s, ins, ss)
@@ -389,6 +411,11 @@ func (e *Exec) libCall(s *State, ins ssa.Instruction, callee *ssa.Function, full
 	case "(*sync.Cond).Wait", "(*sync.Cond).Signal", "(*sync.Cond).Broadcast":
 		e.logAbs("sync.Cond: not modelled")
 		return nil, true
+	}
+	if full == "sort.Slice" || full == "sort.SliceStable" {
+		if e.sortSlice(s, ins, args) {
+			return nil, true
+		}
 	}
 	if r, ok := e.stringLib(s, full, args); ok {
 		return r, true
@@ -866,4 +893,50 @@ func (e *Exec) endStep(s *State, ins ssa.Instruction, ss *SiteSpec) {
 	before := s.clone()
 	e.havocGuarded(s, mon, objT, obj)
 	e.assumeRely(s, before, mon, objT, obj)
+}
+
+// sortSlice models sort.Slice(x, less) for a slice boxed at the call: afterwards every element of the
+// window is one of the elements that were in the window before (same length, nothing outside the
+// window changes). Ordering is not modelled (less is a callback).
+func (e *Exec) sortSlice(s *State, ins ssa.Instruction, args []Value) bool {
+	call, ok := ins.(*ssa.Call)
+	if !ok || len(call.Call.Args) < 1 {
+		return false
+	}
+	mi, ok := call.Call.Args[0].(*ssa.MakeInterface)
+	if !ok {
+		return false
+	}
+	st, ok := mi.X.Type().Underlying().(*types.Slice)
+	if !ok {
+		return false
+	}
+	sl, ok := e.val(s, mi.X).(*SliceV)
+	if !ok {
+		return false
+	}
+	et := st.Elem()
+	permName := TS.Fresh("sortperm", "Int").Op // a fresh function symbol name
+	fn := "perm_" + sanitize(permName)
+	TS.DeclFun(fn, []string{e.mode.idxSort()}, e.mode.idxSort())
+	i := BoundVar("i!sp", e.mode.idxSort())
+	lo, hi := sl.Off, e.iadd(sl.Off, sl.Len)
+	inWin := And(e.ile(lo, i), e.ilt(i, hi))
+	pi := App(fn, e.mode.idxSort(), i)
+	var facts []*Node
+	facts = append(facts, And(e.ile(lo, pi), e.ilt(pi, hi)))
+	for _, li := range e.mode.leaves(et) {
+		name := heapNameArr(et, li.Path)
+		asort := arraySort(e.mode.idxSort(), li.Sort)
+		h := e.heap(s, name, arraySort(RefSort, asort))
+		oldA := Select(h, sl.Ref)
+		na := TS.Fresh("sorted_"+name, asort)
+		facts = append(facts, Eq(Select(na, i), Select(oldA, pi)))
+		j := BoundVar("j!sp", e.mode.idxSort())
+		s.assume(e.hypForall(j, Implies(Or(e.ilt(j, lo), e.ile(hi, j)), Eq(Select(na, j), Select(oldA, j)))))
+		e.setHeap(s, name, Store(h, sl.Ref, na), sl.Ref)
+	}
+	s.assume(e.hypForall(i, Implies(inWin, And(facts...))))
+	e.logAbs("sort.Slice: result elements are elements of the input (order not modelled)")
+	return true
 }
